@@ -67,7 +67,10 @@ static int tell_if(void *data, const char *key, void *value) {
     ps_priv_t *msg = (ps_priv_t *)data;
     ev_src_t *sub = msg->msg.topic ? (ev_src_t *)key : NULL;                 // key is indeed a subscription when we are publishing (check tell_subscribers()) !!
 
-    if (mod->state & (M_MOD_RUNNING | M_MOD_PAUSED) &&                       // mod is running or paused
+    /* Ticks are not worth queueing for a paused module: it would get them all at once when resumed */
+    const bool stale_tick = msg->msg.system && msg->msg.topic && (mod->state & M_MOD_PAUSED) && !strcmp(msg->msg.topic, M_PS_CTX_TICK);
+
+    if (mod->state & (M_MOD_RUNNING | M_MOD_PAUSED) && !stale_tick &&        // mod is running or paused
         (!msg->msg.topic || sub || !key)) {                                  // it is a publish and mod is subscribed on topic, or it is a broadcast/direct tell message (no key: direct tell, eg: poisonpill)
 
         M_DEBUG("Telling a message to '%s'\n", mod->name);
